@@ -448,7 +448,13 @@ def _views_glyphs(o):
 
 
 CLASSES["C15_GlyphSet"].views["glyphs"] = _views_glyphs
-CLASSES["C15_Glyph"].views.update({"anchors": lambda o: list(o.anchors), "ncontours": lambda o: len(o)})
+def _views_anchors(o):
+    from pyvc.rt import Proxy
+
+    return [Proxy(a, CLASSES["C15_Anchor"]) for a in o.anchors]  # proxies: `==` is object identity, also against old() snapshots
+
+
+CLASSES["C15_Glyph"].views.update({"anchors": _views_anchors, "ncontours": lambda o: len(o)})
 
 _c0 = Val(Ref("C15_AComponent"), z3.Const("comp0", T.RefSort))
 _c1 = Val(Ref("C15_AComponent"), z3.Const("comp1", T.RefSort))
@@ -726,9 +732,9 @@ contract(
 #
 # Stated as internal assertions (`hints`, proved for all inputs) over ghost snapshots taken after the loop that recurses into the
 # bases: the recursive calls may legitimately change other glyphs, and the engine has no frame vocabulary to export "this glyph's
-# anchors were not among them" as a postcondition.  NOTE (soundness): `modified = self.context.modified` is an ALIAS of the context's
-# set in Python; the engine copies the value.  Nothing below depends on the CONTENT of `modified` (only on which object/value is
-# handed to the pen), and the compensation that does depend on it is proved in TransformPointPen.addComponent.
+# anchors were not among them" as a postcondition.  `modified = self.context.modified` is an ALIAS of the context's set: the engine
+# links the local to the field (`modified.add(..)` writes through), hence `C02_Ctx.modified` in the frame and the clause
+# `modified-only-grows`; the compensation that depends on the set's content is proved in TransformPointPen.addComponent.
 
 
 def _rec_init(ex, st, self, args, kwargs, node):
@@ -780,7 +786,7 @@ CLASSES["TransformPointPen"] = CLASSES["C15_TPen"]  # the constructor call in fi
 _MX = "self.context.matrix"
 _FILTER_FIELDS = ["C15_Glyph.width", "C15_Glyph.height", "C15_Anchor.x", "C15_Anchor.y", "C15_Glyph.replayed_from", "C15_Glyph.replayed_through", "C15_Glyph.replay_count",
                   "C15_Glyph.cleared_contours", "C15_Glyph.cleared_components", "C15_TPen._outPen", "C15_TPen._transformation", "C15_TPen._inverted", "C15_TPen.modified",
-                  "C15_OutPen.glyph", "RecordingPointPen.recorded"]
+                  "C15_OutPen.glyph", "RecordingPointPen.recorded", "C02_Ctx.modified"]
 contract(
     "ufo2ft.filters.transformations:TransformationsFilter.filter",
     props=["C15"],
@@ -803,6 +809,7 @@ contract(
     modifies=_FILTER_FIELDS,
     ensures={
         "nothing-to-do": f"implies({_MX} == Identity or (glyph.ncontours == 0 and len(glyph.components) == 0 and len(glyph.anchors) == 0), not result)",
+        "modified-only-grows": "all(n in self.context.modified for n in old(self.context.modified))",
         "otherwise-transformed": f"implies(not ({_MX} == Identity or (glyph.ncontours == 0 and len(glyph.components) == 0 and len(glyph.anchors) == 0)), result"
         f" and glyph.replayed_from == glyph and glyph.replayed_through._transformation == {_MX} and glyph.replayed_through._outPen.glyph == glyph)",
     },
@@ -831,7 +838,7 @@ contract(
         ],
     },
     loops={
-        "for component in glyph.components": Loop(index="ci", invariants={}),
+        "for component in glyph.components": Loop(index="ci", invariants={"modified-only-grows": "all(n in self.context.modified for n in old(self.context.modified))"}),
         "for a in glyph.anchors": Loop(
             index="ai",
             invariants={
@@ -876,7 +883,7 @@ def _min_member(ex, st, args, kwargs, node):
     s = lift(v)
     ex.safety(st, z3.Length(s) > 0, "ValueError", node)
     p = z3.Int(fresh_name("minpos"))
-    st.assume(z3.And(0 <= p, p < z3.Length(s)))
+    st.assume(z3.And(0 <= p, p < z3.Length(s), z3.Contains(s, z3.Unit(s[p]))))  # (an element at a position is a member: theorem of sequences)
     return Val(v.ty.elem, s[p])
 
 
@@ -887,7 +894,7 @@ contract(
     returns=Ref("C15_AComponent"),
     models={"builtins.min": _min_member},
     requires=["len(components) > 0"],
-    ensures={"one-of-them": "any(components[k] == result for k in range(len(components)))"},
+    ensures={"one-of-them": "any(components[k] == result for k in range(len(components)))", "a-member": "result in components"},
     canaries={"the-first": "result == components[0]"},
 )
 
@@ -936,6 +943,7 @@ def _sorted_items(ex, st, args, kwargs, node):
     i = z3.Int(fresh_name("si"))
     st.assume(z3.ForAll([x], z3.Contains(ks, z3.Unit(x)) == z3.Select(s.dom(d), x)))
     st.assume(z3.ForAll([i], z3.Implies(z3.And(0 <= i, i < z3.Length(ks)), z3.Select(s.dom(d), ks[i]))))
+    st.assume((z3.Length(ks) == 0) == (s.dom(d) == z3.K(t.k.sort(), z3.BoolVal(False))))  # no pairs iff the dict is empty
     item = lambda j: Val(PYOBJ, None, (Val(t.k, ks[j]), Val(t.v, z3.Select(s.map(d), ks[j]))), True)  # noqa: E731
     out = IterInfo("indexed", n=z3.Length(ks), item=item, seqval=Val(List(t.k), ks))
     return Val(PYOBJ, None, ("iterinfo", out, None), True)
@@ -946,7 +954,7 @@ _GSG = "glyphSet.glyphs"
 _HAD = "any(a.name == probe for a in old(composite.anchors))"
 _NA0 = "len(old(composite.anchors))"
 _UNTOUCHED = f"all(implies(n in old(processed), {_GSG}[n].anchors == old({_GSG}[n].anchors)) for n in glyphSet.names)"
-_NO_OVERRIDE = "implies(probe in to_add, not any(a.name == probe for a in composite.anchors))"
+_NO_OVERRIDE = "implies(probe in to_add, not any(a.name == probe for a in A0))"  # A0: the composite's anchors at entry (ghost snapshot)
 _PRESENT = "all(c.baseGlyph in glyphSet.glyphs for c in {l})"
 contract(
     _PGA,
@@ -956,6 +964,7 @@ contract(
     calls={"ufo2ft.filters.propagateAnchors:_get_anchor_data": "ufo2ft.filters.propagateAnchors:_get_anchor_data#any-components"},
     models={"builtins.sorted": _sorted_items},
     dict_key_positions=False,
+    merge_branches=False,  # (with / without the promotion of a mark component: separate paths, small terms)
     extract_free=True, seq_bridge=True,  # `mark_components.remove(c)`: the two halves and their concatenation come with position-wise facts
     # (anchor positions: only the NEW anchors' x / y are written; declared class-wide because the frame check cannot see through the loop cut
     #  that the written objects are new — callers merely forget positions; names are immutable, see C15_Anchor)
@@ -976,10 +985,28 @@ contract(
         # NEVER OVERRIDES (for the arbitrary name `probe`): no appended anchor carries the name of an anchor the composite already had
         "never-overrides": f"implies({_HAD}, all(composite.anchors[k].name != probe for k in range({_NA0}, len(composite.anchors))))",
     },
+    # NEVER OVERRIDES for every name at once, natively on real glyph objects
+    bounded_ensures={
+        "never-overrides-any-name": f"all(composite.anchors[k].name not in [a.name for a in old(composite.anchors)] for k in range({_NA0}, len(composite.anchors)))",
+    },
     canaries={"never-adds": "len(composite.anchors) == len(old(composite.anchors))"},
     locals={"base_components": List(Ref("C15_AComponent")), "mark_components": List(Ref("C15_AComponent")), "anchor_names": Set(STR), "to_add": _AD, "glyph": Ref("C15_Glyph")},
-    ghost_vars={"A0": (List(Ref("C15_Anchor")), "composite.anchors")},
-    hints={"mark_components.remove(component)": [_PRESENT.format(l="mark_components")]},
+    ghost_vars={"A0": (List(Ref("C15_Anchor")), "composite.anchors"), "AP": (List(Ref("C15_Anchor")), "[]")},
+    ghost={"anchor_dict = {'name': name, 'x': x, 'y': y}": ["AP = composite.anchors"]},  # AP: the anchor list just before the next append (snapshot)
+    alias_ok=("AP", "A0"),
+    hints={
+        # one append, step by step: the list grows by one NEW anchor carrying `name`; everything before it stays; so do the earlier new names
+        "composite.appendAnchor(anchor_dict)": [
+            "len(composite.anchors) == len(AP) + 1 and composite.anchors[len(AP)].name == name",
+            "all(composite.anchors[k] == AP[k] for k in range(len(AP)))",
+            "all(composite.anchors[k].name in to_add for k in range(len(A0), len(AP)))",
+            "name in to_add",
+            "all(composite.anchors[k].name in to_add for k in range(len(A0), len(composite.anchors)))",
+        ],
+        "mark_components.remove(component)": [_PRESENT.format(l="mark_components")],
+        # after the promotion of a mark to a base (or without it): every component in either list still has its base in the glyph set
+        "if mark_components and (not base_components) and _is_ligature_mark(composite):": [_PRESENT.format(l="mark_components"), _PRESENT.format(l="base_components")],
+    },
     loops={
         "for component in composite.components": Loop(
             index="ci",
@@ -988,19 +1015,54 @@ contract(
                 "modified": "all(n in modified for n in old(modified))",
                 "untouched": _UNTOUCHED,
                 "own-anchors": "composite.anchors == A0",
-                "bases-present": _PRESENT.format(l="base_components") + " and " + _PRESENT.format(l="mark_components"),
+                "bases-present": _PRESENT.format(l="base_components"),
+                "marks-present": _PRESENT.format(l="mark_components"),
             },
         ),
         "for anchor_name in anchor_names": Loop(done="AN", invariants={"no-override": _NO_OVERRIDE}),
-        "for component in mark_components": Loop(index="mi", invariants={"no-override": _NO_OVERRIDE}),
+        "for component in mark_components": Loop(index="mi", seq="MCS", invariants={"no-override": _NO_OVERRIDE, "marks-present": "all(MCS[k].baseGlyph in glyphSet.glyphs for k in range(len(MCS)))"}),
         "for (name, (x, y)) in sorted(to_add.items())": Loop(
             index="si", seq="KS",
             invariants={
                 "appended": "len(composite.anchors) == len(A0) + si",
                 "kept": "all(composite.anchors[k] == A0[k] for k in range(len(A0)))",
-                "new-names": "all(composite.anchors[len(A0) + k].name == KS[k] for k in range(si))",
+                "new-names-are-keys": "all(composite.anchors[k].name in to_add for k in range(len(A0), len(composite.anchors)))",
+                "no-override": _NO_OVERRIDE,
                 "untouched": _UNTOUCHED,
             },
         ),
     },
 )
+
+
+def _pga_cases(rng, n):
+    from vcheck.hooks import c15_render as R
+
+    out = []
+    for k in range(n):
+        desc = R.rand_graph(rng, n_base=3, n_comp=rng.randint(1, 4), depth=3, curves=None, mixed=True, anchors=True)
+        names = sorted(desc)
+        for g in desc.values():
+            if rng.random() < 0.4 and not any(a[0] == "top" for a in g["anchors"]):
+                g["anchors"].append(["top", rng.randrange(0, 500) + 0.5, rng.randrange(0, 700)])
+            if rng.random() < 0.25:
+                g["anchors"].append(["_" + rng.choice(["top", "bottom"]), rng.randrange(0, 300), rng.randrange(0, 300)])
+        comps = [n_ for n_ in names if desc[n_]["components"]]
+        target = rng.choice(comps or names)
+        others = [x for x in names if x != target]
+        out.append({"glyphs": desc, "glyph": target, "processed": rng.sample(others, rng.randint(0, len(others))) if rng.random() < 0.4 else [],
+                    "already": rng.random() < 0.1, "marks": rng.sample(names, rng.randint(0, 2)), "ufolib": ["ufoLib2", "defcon"][k % 2]})
+    return out
+
+
+def _pga_build(d):
+    from types import SimpleNamespace
+
+    f = rtlib.build_ufo({"glyphs": d["glyphs"]}, d["ufolib"])
+    gs = {g.name: g for g in f}
+    processed = set(d["processed"]) | ({d["glyph"]} if d["already"] else set())
+    return {"glyphSet": gs, "composite": gs[d["glyph"]], "processed": processed, "modified": set(), "categories": SimpleNamespace(mark=set(d["marks"]))}
+
+
+CONTRACTS[_PGA].runtime = Runtime(_pga_cases, _pga_build)
+CLASSES["C15_Glyph"].views["components"] = lambda o: list(o.components)
